@@ -16,12 +16,18 @@ PROPS_V = "theories/Props/C13.v"
 THEOREMS = ["C13_gate_sound", "C13_auth_sound", "C13_gate_unix_sound", "C13_gate_http_sound",
             "C13_can_read_spec", "C13_can_write_spec", "C13_revoke_key_next", "C13_revoke_perm_next",
             "C13_reserved_id_creatable", "C13_no_identity_commands", "C13_authorized_only_refuted",
-            "C13_outside_known", "C13_served_outside_known"]
+            "C13_outside_known", "C13_served_outside_known", "C13_grant_many_eq_fold", "C13_revoke_many_eq_fold",
+            "C13_dispatch_grant_many", "C13_grant_many_entry", "C13_revoke_many_entry"]
 RULE = ("histories of probe lines against one engine process each (auth ON): (a) the full role-set x "
         "permission-entry table and random grant/revoke/revoke-key sequences through AuthManager with "
         "can_read/can_write/is_admin after every step; (b) parse_auth / verify_signature / session-token lines "
         "(valid, wrong, truncated, over-long, expired, revoked); (c) gate lines over loopback TCP, the unix "
         "Connection and HTTP /command (AUTH, inline, connection-scoped, TOKEN, credential-like payloads); "
+        "(e) ONE connection over time: AUTH, the token used, key / session / token revocation or expiry through "
+        "the AuthManager, the same token and connection-scoped signatures again on the same, another and a fresh "
+        "connection; (f) GRANT / REVOKE over several event types (all orders, repetitions, an undefined type) for "
+        "users holding different permission sets on the listed types, then the permission table, can_read / "
+        "can_write and STORE / QUERY per type; "
         "(d) every command kind under admin / reading / writing / no-role / reserved-name / unknown / revoked "
         "users through parse_command + dispatch_command.  A case is non-trivial when the implementation "
         "answered it (no ABORT/UNKNOWN); distinct by (kind, op, identity class, command kind, result)")
@@ -144,6 +150,9 @@ class Hist:
 
     def revkey(self, u):
         return self.add(f"auth_revkey {hx(u)}", op="revkey", u=u, show=f"revoke_key({u})")
+
+    def perms(self, u):
+        return self.add(f"auth_perms {hx(u)}", op="perms", u=u, show=f"get_permissions({u})")
 
     def can(self, u, t):
         return self.add(f"auth_can {hx(u)} {hx(t)}", op="can", u=u, t=t, show=f"can_read/can_write/is_admin({u},{t})")
@@ -295,7 +304,13 @@ def gen_expiry(rng, tier, idx):
     st = 'STORE ta FOR c1 PAYLOAD {"k":1}'
     h.tcp("x", f"{st} TOKEN @{{a}}", d_st("ta"), st, {"valid": True, "user": "e1"})
     h.tcp("y", f"AUTH e1:{sign('key-e1', 'e1')}", "bad", "", {"valid": True, "user": "e1", "auth": True})
+    for _ in range(2):
+        h.tcp("y", f"{st} TOKEN @{{auth:y}}", d_st("ta"), st, {"valid": True, "user": "e1"}, note="AUTH token used on its own connection")
+    h.tcp("y", f"{st} TOKEN @{{a}}", d_st("ta"), st, {"valid": True, "user": "e1"}, note="session token used on an authenticated connection")
     h.add("auth_sleep 3", op="sleep")
+    for _ in range(2):
+        h.tcp("y", f"{st} TOKEN @{{auth:y}}", d_st("ta"), st, {"valid": False, "user": "e1"}, note="expired AUTH token re-used on its own connection")
+    h.tcp("y", f"{st} TOKEN @{{a}}", d_st("ta"), st, {"valid": False, "user": "e1"}, note="expired session token re-used on the same connection")
     h.add(f"auth_tok_check {hx('@{a}')}", op="tokcheck", live=False, u=None, show="validate_session_token(expired token)")
     h.tcp("x", f"{st} TOKEN @{{a}}", d_st("ta"), st, {"valid": False, "user": "e1"}, note="expired token")
     h.tcp("x", f"{st} TOKEN @{{auth:y}}", d_st("ta"), st, {"valid": False, "user": "e1"}, note="expired AUTH token")
@@ -540,6 +555,163 @@ def gen_engine(rng, tier, idx):
     return h
 
 
+# ------------------------------------------------------------------ (e) one connection over time
+def gen_conn(rng, tier, idx):
+    """Credential state carried by ONE connection (one TcpAuthState / verif::Gate) across lines: AUTH, the
+    token used successfully, then key / session / token revocation through the AuthManager, then the SAME
+    token and connection-scoped signatures again on the SAME connection (and on other / fresh ones)."""
+    h = Hist(f"conn{idx}", "conn")
+    setup_types(h, ["ta"], 'k: "int", s: "string"')
+    events = ["revkey_cmd", "revkey_mgr", "sess_revoke", "tok_revoke", "none"]
+    nsc = 10 if tier == "quick" else 60
+    for n in range(nsc):
+        ev = events[n % len(events)] if n < 2 * len(events) else rng.choice(events)
+        u, v = f"cu{idx}x{n}", f"cv{idx}x{n}"
+        ku, kv = f"key-{u}", f"key-{v}"
+        c, d, e = f"c{n}", f"d{n}", f"e{n}"
+        x = f"x{n}"
+        h.mk(u, ku, ["write-only"])
+        h.mk(v, kv, ["write-only"])
+
+        def st():
+            return f'STORE ta FOR c1 PAYLOAD {{"k":{rng.below(1000)},"s":"v"}}'
+
+        def line(conn, who, form, ok, note):
+            key = ku if who == u else kv
+            t = st()
+            if form == "sig":
+                ln = f"{sign(key, t)}:{t}"
+            elif form == "inline":
+                ln = f"{who}:{sign(key, t)}:{t}"
+            else:                       # a token slot
+                ln = f"{t} TOKEN @{{{form}}}"
+            h.tcp(conn, ln, d_st("ta"), t, {"valid": bool(ok), "user": who}, note=note)
+
+        def auth(conn, who, ok, note="AUTH"):
+            key = ku if who == u else kv
+            h.tcp(conn, f"AUTH {who}:{sign(key, who)}", "bad", "", {"valid": bool(ok), "user": who, "auth": True}, note=note)
+
+        # before anything: the forms need credentials
+        line(c, u, "sig", False, "connection-scoped form before AUTH")
+        auth(c, u, True)
+        auth(d, v, True)
+        for k in range(rng.range(1, 3)):
+            line(c, u, f"auth:{c}", True, "own AUTH token on its connection")
+        line(c, u, "sig", True, "connection-scoped signature")
+        line(d, u, f"auth:{c}", True, "u's token on v's connection")
+        line(c, v, f"auth:{d}", True, "v's token on u's connection")
+        h.add(f"auth_tok_new {x} {hx(u)}", op="toknew", u=u)
+        line(c, u, x, True, "second session token of u on u's connection")
+        if rng.chance(1, 2):
+            line(d, u, x, True, "second session token of u on v's connection")
+        h.add(f"auth_tok_check {hx('@{' + x + '}')}", op="tokcheck", live=True, u=u, show=f"validate_session_token(second token of {u}) after successful uses")
+        h.add(f"auth_tok_check {hx('@{auth:' + c + '}')}", op="tokcheck", live=True, u=u, show=f"validate_session_token(AUTH token of {u}) after successful uses")
+        h.http(u, sign(ku, "PING"), "PING", "ping", "PING", {"valid": True, "user": u}, note="http header before the event")
+        # the event, through the AuthManager / an admin command - never through the connection itself
+        if ev == "revkey_cmd":
+            h.cmd(ADMIN, "rvk:" + hx(u), f"REVOKE KEY {u}")
+        elif ev == "revkey_mgr":
+            h.revkey(u)
+        elif ev == "sess_revoke":
+            h.add(f"auth_sess_revoke {hx(u)}", op="sessrevoke")
+        elif ev == "tok_revoke":
+            h.add(f"auth_tok_revoke {hx('@{auth:' + c + '}')}", op="tokrevoke")
+            h.add(f"auth_tok_revoke {hx('@{gate:' + c + '}')}", op="tokrevoke")
+        key_ok = ev in ("sess_revoke", "tok_revoke", "none")
+        authtok_ok = ev == "none"
+        x_ok = ev in ("tok_revoke", "none")
+        tag = {"revkey_cmd": "after REVOKE KEY", "revkey_mgr": "after revoke_key", "sess_revoke": "after revoke_user_sessions",
+               "tok_revoke": "after revoke_session_token", "none": "control, nothing revoked"}[ev]
+        h.add(f"auth_tok_check {hx('@{' + x + '}')}", op="tokcheck", live=x_ok, u=u if x_ok else None, show=f"validate_session_token(second token of {u}) {tag}")
+        h.add(f"auth_tok_check {hx('@{auth:' + c + '}')}", op="tokcheck", live=authtok_ok, u=u if authtok_ok else None, show=f"validate_session_token(AUTH token of {u}) {tag}")
+        # the SAME connection again, every form, the token twice
+        for k in range(2):
+            line(c, u, f"auth:{c}", authtok_ok, f"own AUTH token RE-USED on the same connection {tag}")
+        line(c, u, x, x_ok, f"second session token re-used on the same connection {tag}")
+        line(c, u, "sig", key_ok, f"connection-scoped signature on the same connection {tag}")
+        line(c, u, f"auth:{c}", authtok_ok, f"own AUTH token once more {tag}")
+        # other connections, a fresh one, the other user
+        line(d, u, f"auth:{c}", authtok_ok, f"u's token on v's connection {tag}")
+        line(e, u, f"auth:{c}", authtok_ok, f"u's token on a fresh connection {tag}")
+        line(e, u, "inline", key_ok, f"inline signature on a fresh connection {tag}")
+        line(d, v, f"auth:{d}", True, f"v's own token {tag} of u")
+        line(c, v, f"auth:{d}", True, f"v's token on u's connection {tag} of u")
+        line(d, v, "sig", True, f"v's connection-scoped signature {tag} of u")
+        h.http(u, sign(ku, "PING"), "PING", "ping", "PING", {"valid": key_ok, "user": u}, note=f"http header {tag}")
+        # AUTH again on the same connection
+        auth(c, u, key_ok, f"AUTH again on the same connection {tag}")
+        line(c, u, f"auth:{c}", key_ok, f"token of the new AUTH {tag}")
+        line(c, u, "sig", key_ok, f"connection-scoped signature after the new AUTH {tag}")
+        line(c, u, x, x_ok, f"old second token after the new AUTH {tag}")
+        if ev in ("none", "tok_revoke", "sess_revoke") and rng.chance(1, 2):
+            # now revoke the key as well: everything of u dies, on the connection that just re-authenticated too
+            h.cmd(ADMIN, "rvk:" + hx(u), f"REVOKE KEY {u}")
+            line(c, u, f"auth:{c}", False, "fresh AUTH token re-used on the same connection after REVOKE KEY")
+            line(c, u, "sig", False, "connection-scoped signature on the same connection after REVOKE KEY")
+            line(c, u, x, False, "second token on the same connection after REVOKE KEY")
+            line(c, v, f"auth:{d}", True, "v's token on the dead user's connection")
+    return h
+
+
+# ------------------------------------------------------------------ (f) GRANT / REVOKE over several event types
+def gen_multi(rng, tier, idx):
+    """GRANT / REVOKE naming several event types, for users that already hold different permission sets on
+    the listed types; afterwards the whole table (get_permissions, SHOW PERMISSIONS, can_read / can_write)
+    and STORE / QUERY per type."""
+    import itertools
+    h = Hist(f"multi{idx}", "multi")
+    T = ["alpha", "beta", "gamma"]
+    setup_types(h, T)
+    for t in T:
+        h.cmd(ADMIN, d_st(t), f'STORE {t} FOR c1 PAYLOAD {{"k":1}}')
+    lists = [list(p) for p in itertools.permutations(T, 2)] + [list(p) for p in itertools.permutations(T, 3)]
+    pre_cycle = [("w", None, "r"), (None, "w", "rw"), ("rw", "r", None), ("r", "deny", "w"), ("deny", None, "rw"), (None, None, None),
+                 ("w", "w", "r"), ("r", "rw", "deny")]
+    scen = []
+    for i, ls in enumerate(lists):
+        for kind in ("grant", "revoke"):
+            pre = pre_cycle[(i * 2 + (kind == "revoke")) % len(pre_cycle)]
+            scen.append((kind, ls, dict(zip(ls + [t for t in T if t not in ls], pre)), [(1, 0), (0, 1), (1, 1)][(i + (kind == "revoke")) % 3], []))
+    nrand = 12 if tier == "quick" else 150
+    for _ in range(nrand):
+        ls = list(rng.choice(lists))
+        if rng.chance(1, 4):
+            ls.insert(rng.below(len(ls) + 1), rng.choice(ls))          # a type listed twice
+        kind = rng.choice(["grant", "revoke"])
+        if kind == "grant" and rng.chance(1, 6):
+            ls.insert(rng.below(len(ls) + 1), "nosuch")                 # GRANT stops at an undefined type
+        pre = {t: rng.choice([None, None, "r", "w", "rw", "deny"]) for t in T}
+        roles = rng.choice([[], [], [], ["read-only"], ["editor"], ["write-only"], ["viewer", "write-only"]])
+        scen.append((kind, ls, pre, rng.choice([(1, 0), (0, 1), (1, 1)]), roles))
+    for n, (kind, ls, pre, (pr, pw), roles) in enumerate(scen):
+        u = f"mu{idx}x{n}"
+        text = f'CREATE USER {u} WITH KEY "k"' + (f" WITH ROLES [{', '.join(chr(34) + r + chr(34) for r in roles)}]" if roles else "")
+        h.cmd(ADMIN, d_mku(u, "k", roles if roles else None), text)
+        for t in T:
+            p = pre.get(t)
+            if p in ("r", "deny"):
+                h.cmd(ADMIN, d_gr(1, 0, [t], u), f"GRANT READ ON {t} TO {u}")
+            if p == "w":
+                h.cmd(ADMIN, d_gr(0, 1, [t], u), f"GRANT WRITE ON {t} TO {u}")
+            if p == "rw":
+                h.cmd(ADMIN, d_gr(1, 1, [t], u), f"GRANT READ, WRITE ON {t} TO {u}")
+            if p == "deny":
+                h.cmd(ADMIN, d_rv(1, 1, [t], u), f"REVOKE READ, WRITE ON {t} FROM {u}")
+        h.perms(u)
+        names = ", ".join(n_ for n_, b in (("READ", pr), ("WRITE", pw)) if b)
+        if kind == "grant":
+            h.cmd(ADMIN, d_gr(pr, pw, ls, u), f"GRANT {names} ON {', '.join(ls)} TO {u}", note=f"multi-type GRANT, held before: {pre}")
+        else:
+            h.cmd(ADMIN, d_rv(pr, pw, ls, u), f"REVOKE {names} ON {', '.join(ls)} FROM {u}", note=f"multi-type REVOKE, held before: {pre}")
+        h.perms(u)
+        h.cmd(ADMIN, "shp:" + hx(u), f"SHOW PERMISSIONS FOR {u}")
+        for t in T:
+            h.can(u, t)
+            h.cmd(u, d_st(t), f'STORE {t} FOR c1 PAYLOAD {{"k":2}}')
+            h.cmd(u, d_q(t), f"QUERY {t}")
+    return h
+
+
 def gen_restart(rng, tier, idx):
     h = Hist(f"restart{idx}", "restart")
     setup_types(h, ["ta"])
@@ -575,6 +747,10 @@ def cases(rng, tier):
         hs.append(gen_engine(rng.fork(f"engine{i}"), tier, i))
     for i in range(1 if q else 4):
         hs.append(gen_restart(rng.fork(f"restart{i}"), tier, i))
+    for i in range(2 if q else 12):
+        hs.append(gen_conn(rng.fork(f"conn{i}"), tier, i))
+    for i in range(2 if q else 10):
+        hs.append(gen_multi(rng.fork(f"multi{i}"), tier, i))
     out = []
     for h in hs:
         out += h.cases
@@ -754,11 +930,28 @@ def status_of(out):
     return (out or "").split(" ")[0]
 
 
+def perms_of(out):
+    """permission table of a SHOW PERMISSIONS / get_permissions answer: {type: (read, write)} or None"""
+    for tok in (out or "").split(" "):
+        if tok.startswith("perms="):
+            return tok[6:]
+    return None
+
+
+def perm_table(txt):
+    d = {}
+    if txt and txt != "-":
+        for e in txt.split(","):
+            t, rw = e.rsplit(":", 1)
+            d[bytes.fromhex(t).decode("utf-8", "replace") if t != "-" else ""] = ("r" in rw, "w" in rw)
+    return d
+
+
 def same(c, impl, model):
     if impl is None or model is None:
         return impl == model
     if c.get("op") == "cmd":
-        return status_of(impl) == model
+        return (status_of(impl), perms_of(impl)) == (status_of(model), perms_of(model))
     return impl == model
 
 
@@ -891,6 +1084,16 @@ def judge_command(pol, who, desc, status, out):
     return why
 
 
+def judge_table(pol, u, table, what):
+    """every entry of a permission table must come from a grant in force, judged type by type"""
+    for t, (r, w) in sorted(table.items()):
+        if r and t not in pol.users[u]["rd"]:
+            return f"{what}: user {u} holds READ on {t!r}, which was never granted (or was revoked)"
+        if w and t not in pol.users[u]["wr"]:
+            return f"{what}: user {u} holds WRITE on {t!r}, which was never granted (or was revoked)"
+    return None
+
+
 def judge_history(full, outs):
     pol = Policy()
     verdicts = []
@@ -902,6 +1105,10 @@ def judge_history(full, outs):
             why = f"probe did not answer: {out}"
         elif op == "cmd":
             why = judge_command(pol, c.get("who"), c["desc"], st, out)
+            if why is None and c["desc"].startswith("shp:") and st == "200" and perms_of(out) is not None:
+                tu = parse_desc(c["desc"])[1]["u"]
+                if tu in pol.users:
+                    why = judge_table(pol, tu, perm_table(perms_of(out)), "SHOW PERMISSIONS")
         elif op == "gate":
             cred = c.get("cred", {})
             if cred.get("auth"):
@@ -947,6 +1154,9 @@ def judge_history(full, outs):
                 why = f"can_read({u},{t}) holds without read permission or a reading role"
             elif f.get("w") == "1" and not pol.may_write(u, t):
                 why = f"can_write({u},{t}) holds without write permission or a writing role"
+        elif op == "perms":
+            if out.startswith("PT ") and c["u"] in pol.users:
+                why = judge_table(pol, c["u"], perm_table(out[3:]), "get_permissions")
         elif op == "verify":
             if out == "OK" and not c.get("valid"):
                 why = "verify_signature accepted a signature that is not hmac(key, message) of an active user"
